@@ -18,6 +18,7 @@ class MulOp(internal.SimpleRawTokenModel):
 @internal.tree_model
 class NumberMulExpr(base.RawTreeModel):
     RULE = 'number_mul_expr'
+    INLINE = True
 
     @final
     def __init__(
